@@ -219,21 +219,26 @@ class Ctx:
         self.spells = spells
 
 
-def invocation(kind, ops, rows, idx, ctx):
-    """(argv, stdin, files) of the process that evaluates ops over rows[idx]."""
+STREAM = ["--records-per-batch", "1", "--fflush"]
+
+
+def invocation(kind, ops, rows, idx, ctx, stream=False):
+    """(argv, stdin, files) of the process that evaluates ops over rows[idx].  stream: one record per batch and
+    a flush after every record, so that the output of a process that dies shows how far it got."""
     sp = ctx.spells
+    pre = STREAM if stream else []
     if ctx.mode == "literal":
         return (["-n", "put", "-f", "prog.mlr"], "", {"prog.mlr": literal_program(kind, ops, rows, idx, sp)})
     if ctx.mode == "json":
         stdin = "[\n" + ",\n".join(row_json(kind, i, rows[i]) for i in idx) + "\n]\n"
-        return (["--ijson", "--odkvp", "put", program(kind, ops, "json")], stdin, None)
+        return (pre + ["--ijson", "--odkvp", "put", program(kind, ops, "json")], stdin, None)
     stdin = "\n".join(row_text(kind, i, rows[i], sp[i] if sp else None) for i in idx) + "\n"
-    return (["--idkvp", "--odkvp", "put", program(kind, ops, ctx.mode)], stdin, None)
+    return (pre + ["--idkvp", "--odkvp", "put", program(kind, ops, ctx.mode)], stdin, None)
 
 
-def run_rows(kind, ops, rows, idx, ctx, cpu_s=4):
+def run_rows(kind, ops, rows, idx, ctx, cpu_s=4, stream=False):
     """One mlr process over rows[idx]; returns {row index: {op index: got}} or raises Died."""
-    argv, stdin, files = invocation(kind, ops, rows, idx, ctx)
+    argv, stdin, files = invocation(kind, ops, rows, idx, ctx, stream)
     r = R.mlr(argv, stdin=stdin, files=files, cpu_s=cpu_s, watchdog=120.0)
     if not r.ok:
         raise Died(r)
@@ -283,15 +288,39 @@ DEATHS_PER_CLASS = 3      # single-row deaths confirmed per operand class; furth
 RECOVERY_BUDGET = 150     # processes per case spent on localising deaths; beyond it the deaths are reported unlocalised
 
 
+def completed_prefix(r, chunk, k):
+    """Rows of `chunk` (in order) whose result line was completely written before the process died."""
+    done = {}
+    for line in r.out.split("\n")[:-1]:
+        f = dict(p.split("=", 1) for p in line.split(",") if "=" in p)
+        try:
+            i = int(f["i"])
+        except (KeyError, ValueError):
+            break
+        if f"o{k}" not in f:
+            break
+        done[i] = parse_cell(f[f"o{k}"])
+    n = 0
+    while n < len(chunk) and chunk[n] in done:
+        n += 1
+    return n, done
+
+
+PROBE = 4
+
+
 def recover(kind, opk, rows, idx, ctx, table, res):
-    """A process running the single operator opk over rows[idx] died: find every cell that
-    kills it.  Recursive halving; once a killing row is known, rows of the same operand class
-    are tried one by one (they usually all die, and a process can only report its first)."""
+    """A process running the single operator opk over rows[idx] died: find every cell that kills it.
+    The re-runs stream (one record per batch, flush per record), so the output of a dying process tells how far
+    it got: the rows it completed keep their results, the next few rows are tried alone, the rest is run again.
+    Once a killing row is known, rows of the same operand class are tried one by one (they usually all die, and
+    a process can only report its first), up to DEATHS_PER_CLASS per class."""
     k, op = opk
     bad_classes = set()
     deaths = {}
     hangs = 0
     last_text = ""
+    stream = ctx.mode != "literal"
     work = [list(idx)]
     while work:
         chunk = work.pop()
@@ -332,7 +361,7 @@ def recover(kind, opk, rows, idx, ctx, table, res):
                     work.append([i])
                 continue
         try:
-            got = run_rows(kind, [opk], rows, chunk, ctx, cpu_s=CPU_RECOVERY)
+            got = run_rows(kind, [opk], rows, chunk, ctx, cpu_s=CPU_RECOVERY, stream=stream and len(chunk) > 1)
             bump(res, "recovery_runs")
             for i in chunk:
                 table.setdefault(i, {})[k] = got[i][k]
@@ -344,12 +373,26 @@ def recover(kind, opk, rows, idx, ctx, table, res):
                 if lab in ("hang", "slow"):
                     hangs += 1
                 table.setdefault(chunk[0], {})[k] = ("died", lab, death_text(d.r), d.r.verdict)
-                bad_classes.add(row_class(rows[chunk[0]]))
-                deaths[row_class(rows[chunk[0]])] = deaths.get(row_class(rows[chunk[0]]), 0) + 1
+                c = row_class(rows[chunk[0]])
+                bad_classes.add(c)
+                deaths[c] = deaths.get(c, 0) + 1
+                continue
+            n, done = completed_prefix(d.r, chunk, k) if stream else (0, {})
+            for i in chunk[:n]:
+                table.setdefault(i, {})[k] = done[i]
+            rest = chunk[n:]
+            if stream and rest:
+                head, tail = rest[:PROBE], rest[PROBE:]
+                if tail:
+                    work.append(tail)
+                for i in reversed(head):
+                    work.append([i])
             else:
-                mid = len(chunk) // 2
-                work.append(chunk[mid:])
-                work.append(chunk[:mid])
+                mid = len(rest) // 2
+                if rest[mid:]:
+                    work.append(rest[mid:])
+                if rest[:mid]:
+                    work.append(rest[:mid])
 
 
 def eval_ops(kind, ops, rows, idx, ctx, table, res, cpu_s=4):
